@@ -411,13 +411,17 @@ Definition mark_resolved (ks : list key) (st : rstate) : rstate :=
   {| rs_store := rs_store st; rs_chans := rs_chans st; rs_pending := remove_keys ks (rs_pending st);
      rs_resolved := rs_resolved st ++ ks; rs_log := rs_log st |}.
 
-(* calculateNextTasks(completedTasks) up to the ready map: resolveCompletedTasks, updateAndGet *)
-Definition calc_body (g : graph) (b : batch) (st : rstate) : res (list (key * handle) * rstate) :=
+(* resolveCompletedTasks, updateValues, updateDependencies for the completed tasks [b] *)
+Definition resolve_phases (g : graph) (b : batch) (st : rstate) : res rstate :=
   do r1 <- phase1 g b st;
   let '(l, st1) := r1 in
   do st2 <- phase2 g l st1;
   do st3 <- phase3 g l st2;
-  let st3' := mark_resolved (map fst b) st3 in
+  Ok (mark_resolved (map fst b) st3).
+
+(* calculateNextTasks(completedTasks) up to the ready map: resolveCompletedTasks, updateAndGet *)
+Definition calc_body (g : graph) (b : batch) (st : rstate) : res (list (key * handle) * rstate) :=
+  do st3' <- resolve_phases g b st;
   get_ready g (chan_keys g) st3'.
 
 (* the completed tasks are those taskManager.wait returned *)
